@@ -341,6 +341,15 @@ Theorem solve_model_solver_ok : forall reorder, reorder_contract reorder -> solv
 Proof. intros reorder H M nc. exact (Proofs.C1P.solve_model_correct reorder H M nc). Qed.
 Print Assumptions solve_model_solver_ok.
 
+(* reorder_sets = "if len(sets) <= 2: return sets" + the PQ-tree: the contract only concerns the PQ-tree on
+   duplicate-free families of at least three ascending tuples *)
+Theorem reorder_sets_model_contract : forall pq_tree,
+  (forall F, 3 <= length F -> NoDup F -> Forall (Sorted.StronglySorted lt) F ->
+     match pq_tree F with Some res => SetsOK F res | None => forall res, ~ SetsOK F res end) ->
+  reorder_contract (reorder_sets_model pq_tree).
+Proof. exact Proofs.C1P.reorder_sets_model_contract. Qed.
+Print Assumptions reorder_sets_model_contract.
+
 (* the contract is satisfiable: the reference enumeration of arrangements *)
 Theorem ref_reorder_contract : reorder_contract (fun F => find (sets_check F) (perms F)).
 Proof. exact Proofs.C1P.ref_reorder_contract. Qed.
